@@ -21,13 +21,13 @@ def _csv(l):
 
 def _impl_enc(a):
     from aioswitcher.schedule.tools import weekdays_to_hexadecimal
-    form, idx = a
+    form, idx = a[0], a[1]
     D = _days()
     ms = [D[i] for i in idx]
     arg = {"single": lambda: ms[0], "set": lambda: set(ms), "frozenset": lambda: frozenset(ms), "list": lambda: list(ms),
            "tuple": lambda: tuple(ms)}[form]()
     try:
-        return "ok " + weekdays_to_hexadecimal(arg)
+        return "ok " + (weekdays_to_hexadecimal(days=arg) if len(a) > 2 and a[2] == "keyword" else weekdays_to_hexadecimal(arg))
     except Exception as e:
         return "raise " + C.exc_name(e)
 
@@ -108,6 +108,7 @@ def _with_repeats(rng, subsets, per):
 def streams(ctx):
     subsets, enc = _all_cases()
     ctx.run_cases(ENC, "encode-all-forms-exhaustive", enc, exhaustive=True, sample_every=397)
+    ctx.run_cases(ENC, "argument-passed-by-keyword", [(f, i, "keyword") for (f, i) in enc], exhaustive=True, sample_every=397)
     ctx.run_cases(ENC, "sequences-of-any-length-with-repeated-members", _with_repeats(ctx.rng, subsets, ctx.n(3, 40)), exhaustive=False, sample_every=97)
     ctx.run_cases(DEC, "decode-all-masks-exhaustive", list(range(-2, 301)), exhaustive=True, sample_every=97)
     ctx.run_cases(RT, "roundtrip-127-subsets", subsets, exhaustive=True, sample_every=41)
